@@ -914,7 +914,10 @@ fn seq_case(ctx: &mut Ctx, s: &SPDC, o: &SPDC, detail: &str, history: &mut Vec<(
         (ra, ri, rs)
       });
       let (ra, ri, rs) = match r {
-        Some(x) if x.0.is_finite() && x.0 > 0.0 && x.2.is_finite() && x.2 > 0.0 => x,
+        // (the reference must be representable: the crate divides intensities by the SQUARE of the centre amplitude,
+        // which underflows to 0 for |jsa| below ~1e-154 — e.g. a one-point Gauss-Legendre rule on a far side lobe —
+        // and then no normalised value is defined at all)
+        Some(x) if x.0.is_finite() && x.0 > 0.0 && (x.0 * x.0).is_normal() && x.1.is_normal() && x.2.is_finite() && x.2 > 0.0 => x,
         _ => {
           ctx.count("skip/reference-zero-or-nonfinite");
           continue;
